@@ -42,6 +42,10 @@ Step(ev) ==
     [] OTHER -> FALSE
 
 StepOK(ev) == Step(ev) /\ IndInv'
+\* The only PROPERTY-layer clause here: a callback runs although an agent that was online at registration has neither
+\* quiesced nor left since (ghost owed, maintained from the kinds of the calls alone).  Everything else compares the code
+\* with the implementation-shaped QsInd and is reported under the pseudo-property DRIFT (MODEL-DRIFT, never a verdict).
+Early(ev) == ev.e = "Cb" /\ ev.n \in Nodes /\ owed[ev.n] # {}
 
 Why(ev) ==
   IF ENABLED Step(ev) THEN "ReachedStateSatisfiesTheInductiveInvariant"
@@ -60,7 +64,9 @@ TraceNext ==
              /\ l' = l + 1 /\ nchk' = nchk
         ELSE IF ENABLED StepOK(ev)
         THEN StepOK(ev) /\ l' = l + 1 /\ nchk' = nchk + 1
-        ELSE /\ TLCSet(1, <<"C11", Why(ev)>>) /\ ReportReject(l)
+        ELSE /\ TLCSet(1, IF Early(ev) THEN <<"C11", "CallbackOnlyAfterEveryAgentOnlineAtRegistrationQuiescedOrLeft">>
+                          ELSE IF ev.e \in {"panic", "crash", "hang"} THEN <<"C11", Why(ev)>> ELSE <<"DRIFT", Why(ev)>>)
+             /\ ReportReject(l)
              /\ l' = NextResetFrom(l + 1) /\ UNCHANGED <<svars, nchk>>
   \/ /\ l = NLines + 1 /\ ReportDone(nchk) /\ l' = l + 1 /\ UNCHANGED <<svars, nchk>>
 
